@@ -4,6 +4,7 @@ MODULES = [
     "contracts.obs_grad",
     "contracts.obs_init",
     "contracts.obs_derived",
+    "contracts.obs_ops",
     "contracts.corr",
     "contracts.readers",
     "contracts.dirac",
